@@ -27,7 +27,7 @@ def coq_expr(t):
     if k == "v":
         return f"(Var {t[1]}%N)"
     if k in P.UN:
-        return f"(Un {dict(neg='UNeg', fact='UFact', sgn='USgn')[k]} {coq_expr(t[1])})"
+        return f"(Un {dict(neg='UNeg', fact='UFact', sgn='USgn', abs='UAbs')[k]} {coq_expr(t[1])})"
     return f"(Bin {dict(eq='KEq', add='KAdd', sub='KSub', mul='KMul', div='KDiv', pow='KPow')[k]} {coq_expr(t[1])} {coq_expr(t[2])})"
 
 
